@@ -369,7 +369,7 @@ def known_value_keys(pid):
     return [[k['match']['sol'], k['match']['fn']] for k in known_for(pid) if 'sol' in k.get('match', {}) and 'fn' in k.get('match', {})]
 
 
-def value_check(pid, tier_, plan, kbits=14, rule='', extra_execs=(), all_known=False, mix=False, accstat=True, zeros=True):
+def value_check(pid, tier_, plan, kbits=14, rule='', extra_execs=(), all_known=False, mix=False, accstat=True, zeros=True, fields_off=False):
     """plan: list of (solution, evaluators or None, nassign, npts)."""
     t0 = time.time()
     rng = random.Random(seed())
@@ -399,6 +399,17 @@ def value_check(pid, tier_, plan, kbits=14, rule='', extra_execs=(), all_known=F
         for i in range(0, len(zp), 6):
             execs.append(gen.gen_values(rng, sol, nassign=len(zp[i:i + 6]), npts=1, evaluators=evs, zero_plan=zp[i:i + 6]))
             execs[-1].label = 'zeros:%s' % sol
+    # one whole field switched off (all its amplitudes exactly 0, the constant part included), one field at a time and two at a
+    # time: only where nothing but exact fields and gradients is evaluated (the source terms divide by rho and T)
+    if fields_off:
+        for sol, evs, na, npt in plan:
+            G = gen.field_groups(sol)
+            assert all(c[0].startswith('exact_') or c[0].startswith('grad_') for c in evs)
+            fs = sorted(G)
+            zp = [set(G[f]) for f in fs] + [set(G[a]) | set(G[b]) for i, a in enumerate(fs) for b in fs[i + 1:]]
+            for i in range(0, len(zp), 6):
+                execs.append(gen.gen_values(rng, sol, nassign=len(zp[i:i + 6]), npts=1, evaluators=evs, zero_plan=zp[i:i + 6]))
+                execs[-1].label = 'fields-off:%s' % sol
     # exact fields and gradients at the zeros / extrema of every trigonometric factor
     for sol, evs, na, npt in plan:
         if gen.purity_picker(sol) is gen.admissible_param and sol != 'navierstokes_4d_compressible_powerlaw':
@@ -511,7 +522,7 @@ def c06(tier_):
 
 def c07(tier_):
     na, npt = reps(tier_, (3, 4), (40, 8))
-    return value_check('C07', tier_, [(s, grads(s) + [c for c in sources_and_exact(s) if c[0].startswith('exact_')], na, npt) for s in GRADSOLS],
+    return value_check('C07', tier_, [(s, grads(s) + [c for c in sources_and_exact(s) if c[0].startswith('exact_')], na, npt) for s in GRADSOLS], fields_off=True,
         rule='every grad_* evaluator of euler_1d/2d/3d, navierstokes_2d/3d, power-law x 2 precisions, direction index in -1..dimension+2: component i vs the i-th partial derivative of the documented exact field (jet), out-of-range index vs the error value (-1; NaN for the power-law solution).')
 
 
@@ -524,7 +535,7 @@ def c08(tier_):
 def c09(tier_):
     na, npt = reps(tier_, (4, 2), (30, 4))
     plan = [(s, None, na, npt) for s in ALLVAL if s != 'sod_1d'] + [('sod_1d', [('source_rho', 'SS'), ('source_rho_u', 'SS')], na, npt)]
-    plan.append(('navierstokes_ablation_1d_steady', [c for c in map(tuple, CAT['navierstokes_ablation_1d_steady']['caps']) if c[0] != 'source_rho_e'], na, npt))      # (source_rho_e is not in the oracle)
+    plan.append(('navierstokes_ablation_1d_steady', None, na, npt))
     gen.FULL_MANTISSA[0] = True      # generic 53-bit inputs: sums and products of the inputs are inexact in double
     return value_check('C09', tier_, plan, kbits=6, all_known=True, mix=True, accstat=True, zeros=False,      # exact zeros belong to C01-C08
        
